@@ -576,6 +576,30 @@ def run(ck: Check):
                          {"config": small, "argv": argv, "occurrences": len(lst), "original_config": cfg,
                           "replay_cmd": "./check C19 --replay <this file>"})
         if (not ok or ck.mismatches) and not ck.violations:
+            # the Lean side / correspondence broke but the sampled configurations show nothing new: widen the search
+            tried = set(ck.distinct)
+            budget = 1500
+            for cfg in list(S.core_product()) + [dict(c, init=i) for c in S.core_lite() for i in S.FACTORS["init"]]:
+                cfg = S.normalise(cfg)
+                k = json.dumps(cfg, sort_keys=True)
+                if k in tried:
+                    continue
+                tried.add(k)
+                budget -= 1
+                if budget < 0:
+                    break
+                oc, fails, recs, extra = run_config(C, cfg, data)
+                ck.case(key=k, nontrivial=(oc != "cli-reject"), bucket=f"search/{cfg['cmd']}/{oc}")
+                new = [(s_, w) for s_, w in fails if s_ not in [ks for ks, _ in ck.known]]
+                if new:
+                    s_, w = new[0]
+                    small = shrink_config(C, cfg, data, s_)
+                    argv = " ".join(S.to_argv(small, Path("DATA")))
+                    ck.violation(s_, f"torchtree-cli {argv}: {w}",
+                                 {"config": small, "argv": argv, "found_by": "widened search after a broken obligation",
+                                  "broken_obligations": broken, "replay_cmd": "./check C19 --replay <this file>"})
+                    break
+        if (not ok or ck.mismatches) and not ck.violations:
             # nothing NEW was found on the implementation (known findings do not explain a broken proof/correspondence)
             ck.violation("cli:unproved", "C19 theorems or the model/implementation correspondence no longer check",
                          {"broken_obligations": broken, "mismatches": ck.mismatches[:5], "translator_note": tr_note},
